@@ -251,13 +251,16 @@ def run(ctx):
         cfg = dict(metric=type(metric).__name__, args={k: v for k, v in c0.items() if k in ('k', 'masked', 'banned', 'oov', 'eos')},
                    bank=[{k: v for k, v in it['c'].items() if k in ('target', 'scores', 'preds', 'd')} for it in bank_items],
                    layout=lay['layout'], entry=how, nan_padding=(li % 3 == 0))
+        # the batches are documented as an Iterable: a list, a one-shot iterator or a generator
+        feed = (batches, iter(batches), (b_ for b_ in batches))[(li // 4) % 3]
+        cfg['batches_as'] = ('list', 'iterator', 'generator')[(li // 4) % 3]
         try:
           if how == 'evaluate_model':
-            got = models.evaluate_model(model, None, batches)['m']
+            got = models.evaluate_model(model, None, feed)['m']
           elif how == 'evaluate_global_params':
-            got = dict(evaluator.evaluate_global_params(jnp.zeros(()), [(b'c', batches)]))[b'c']['m']
+            got = dict(evaluator.evaluate_global_params(jnp.zeros(()), iter([(b'c', feed)])))[b'c']['m']
           elif how == 'evaluate_per_client_params':
-            got = dict(evaluator.evaluate_per_client_params([(b'c', batches, jnp.zeros(()))]))[b'c']['m']
+            got = dict(evaluator.evaluate_per_client_params((x for x in [(b'c', feed, jnp.zeros(()))])))[b'c']['m']
           else:
             b0 = batches[0]
             st = metrics.evaluate_batch(metric, b0, b0['pred'], b0.get('__mask__'))
